@@ -119,7 +119,14 @@ def run_sym(case, mutant=None, stop_first=False):
             # candidate (replayed on the real code before anything is reported)
             tb = traceback.format_exc()[-1500:]
             r, m = ctx.check_sat([])
-            vals = ctx.model_values(m) if r == "sat" else {}
+            if r == "unsat":
+                # the path was only entered because a feasibility query timed out (unknown is
+                # treated as "maybe feasible"); its condition is in fact unsatisfiable
+                return
+            if r != "sat":
+                agg["inconclusive"].append(f"exception {type(e).__name__} on a path whose feasibility z3 could not decide ({m})")
+                return
+            vals = ctx.model_values(m)
             from .core import Violation
 
             v = Violation(
